@@ -288,21 +288,21 @@ func runC20(p *Program, r *Result) {
 
 // readOnlyExt: further external callees that only read their arguments.
 var readOnlyExt = map[string]bool{
-	"strings.ToUpper":                    true,
-	"strings.ToLower":                    true,
-	"strconv.Itoa":                       true,
-	"errors.Is":                          true,
-	"errors.New":                         true,
+	"strings.ToUpper": true,
+	"strings.ToLower": true,
+	"strconv.Itoa":    true,
+	"errors.Is":       true,
+	"errors.New":      true,
 	"invoke (golang.org/x/crypto/ssh.PublicKey).Marshal": true,
 	"invoke (golang.org/x/crypto/ssh.PublicKey).Type":    true,
-	"(*regexp.Regexp).MatchString":       true,
-	"strconv.Atoi":                       true,
-	"(*crypto/rsa.PublicKey).Size":       true,
-	"crypto/rsa.DecryptOAEP":             true,
-	"crypto/rsa.EncryptOAEP":             true,
-	"crypto/sha256.New":                  true,
-	"strings.ContainsAny":                true,
-	"io.ReadFull":                        true,
+	"(*regexp.Regexp).MatchString":                       true,
+	"strconv.Atoi":                                       true,
+	"(*crypto/rsa.PublicKey).Size":                       true,
+	"crypto/rsa.DecryptOAEP":                             true,
+	"crypto/rsa.EncryptOAEP":                             true,
+	"crypto/sha256.New":                                  true,
+	"strings.ContainsAny":                                true,
+	"io.ReadFull":                                        true,
 }
 
 func hasModuleTarget(p *Program, f *ssa.Function, c ssa.CallInstruction) bool {
